@@ -411,14 +411,16 @@ def xsum(*args, func=np.sum):
     for a in args:
         if isinstance(a, str) and not is_number(a):
             raise ValueError
-        elif isinstance(a, bool):
+        elif isinstance(a, (bool, str)):  # Typed logicals and numeric text.
             a = float(a)
         inp.append(np.asarray(a).reshape(1, -1))
     inp = to_number(clean_values(np.concatenate(inp, 1))).astype(float).ravel()
     return func(inp[~np.isnan(inp)])
 
 
-FUNCTIONS['PRODUCT'] = wrap_func(functools.partial(xsum, func=np.prod))
+FUNCTIONS['PRODUCT'] = wrap_func(functools.partial(
+    xsum, func=lambda v: np.prod(v) if v.size else 0.0
+))
 FUNCTIONS['SUM'] = wrap_func(xsum)
 FUNCTIONS['SUMIF'] = wrap_func(functools.partial(xfilter, xsum))
 FUNCTIONS['SUMSQ'] = wrap_func(functools.partial(
